@@ -408,7 +408,7 @@ func (p ShortestAlts) AllTo(vid int64) (paths [][]graph.Node, weight float64) {
 	to, toOK := p.indexOf[vid]
 	if !toOK || len(p.next[to]) == 0 {
 		if p.from.ID() == vid {
-			return [][]graph.Node{{p.nodes[from]}}, 0
+			return [][]graph.Node{{p.from}}, 0
 		}
 		return nil, math.Inf(1)
 	}
@@ -435,7 +435,7 @@ func (p ShortestAlts) AllToFunc(vid int64, fn func(path []graph.Node)) {
 	to, toOK := p.indexOf[vid]
 	if !toOK || len(p.next[to]) == 0 {
 		if p.from.ID() == vid {
-			fn([]graph.Node{p.nodes[from]})
+			fn([]graph.Node{p.from})
 		}
 		return
 	}
